@@ -140,6 +140,7 @@ Judge(t, i) ==
     [] e.op = "dec" -> JudgeDec(t, i, c.T, c.v, e)
     [] e.op = "decu" -> JudgeDecU(t, i, c.T, c.v, e)
     [] e.op = "agree" -> JudgeAgree(t, i, c.T, c.v, e)
+    [] e.op = "same" -> Check(t, i, "Disagree", e.a = e.b)      \* two library paths, same octets (C17)
     [] e.op = "pfxs" -> JudgePfxs(t, i, c.T, c.v, e)
     [] e.op = "tags" -> JudgeTags(t, i, c.T, c.v, e)
     [] e.op = "tagx" -> JudgeTagX(t, i, c.T, c.v, e)
